@@ -2,7 +2,7 @@
 # Triage helper: confirm every seeded change on /repo HEAD in three scratch worktrees (lanes); writes seeded/confirm_HEAD.log
 cd /verif
 H=$(git -C /repo rev-parse --short HEAD)
-ids=($(ls seeded | grep '^C'))
+ids=(${@:-$(ls seeded | grep '^C')})
 rm -f /tmp/confirm_lane_*.log
 lane() {
   L=$1; shift
@@ -15,7 +15,7 @@ a=(); b=(); c=()
 for i in "${!ids[@]}"; do case $((i%3)) in 0) a+=(${ids[$i]});; 1) b+=(${ids[$i]});; 2) c+=(${ids[$i]});; esac; done
 lane 1 "${a[@]}" & lane 2 "${b[@]}" & lane 3 "${c[@]}" &
 wait
-cat /tmp/confirm_lane_1.log /tmp/confirm_lane_2.log /tmp/confirm_lane_3.log > seeded/confirm_HEAD.log
+if [ $# -gt 0 ]; then cat /tmp/confirm_lane_1.log /tmp/confirm_lane_2.log /tmp/confirm_lane_3.log >> seeded/confirm_HEAD.log; else cat /tmp/confirm_lane_1.log /tmp/confirm_lane_2.log /tmp/confirm_lane_3.log > seeded/confirm_HEAD.log; fi
 for L in 1 2 3; do git -C /repo worktree remove --force /tmp/seedconfirm$L; rm -rf /tmp/seedconfirm$L.*; done
 git -C /repo worktree prune
 echo CONFIRM-ALL-DONE
